@@ -40,6 +40,7 @@ struct Obs {
     sres: BTreeMap<String, Vec<String>>,
     fret: BTreeMap<String, String>,
     fired: BTreeMap<String, (usize, usize)>, // watcher -> (count, step of first firing)
+    efired: BTreeMap<String, usize>,         // raw when_empty callback of a sender -> count
 }
 
 enum BatchFut {
@@ -189,7 +190,22 @@ fn run_case(cfg: &Value, case: &Value, ln: usize) -> (Vec<Mismatch>, Value, Vec<
                 for (k, op) in ops.iter().enumerate() {
                     let item = idx * 10 + (k as i64 + 1);
                     set_current_item(item);
-                    rec.log(json!({"ev": "SendCall", "item": item, "kind": match op.as_str() { "send" => "send", "try" => "try", _ => "block" }}));
+                    if op != "weCb" {
+                        rec.log(json!({"ev": "SendCall", "item": item, "kind": match op.as_str() { "send" => "send", "try" => "try", _ => "block" }}));
+                    }
+                    if op == "weCb" {
+                        // a raw when_empty with an observed callback
+                        let w = format!("e_{name}");
+                        set_current_empty_watcher(Some(&w));
+                        let (obs2, rec2, name2) = (obs.clone(), rec.clone(), name.clone());
+                        sender.when_empty(move || {
+                            rec2.log(json!({"ev": "EmptyFired", "w": format!("e_{name2}")}));
+                            *obs2.lock().unwrap().efired.entry(name2.clone()).or_insert(0) += 1;
+                        });
+                        set_current_empty_watcher(None);
+                        obs.lock().unwrap().sres.entry(name.clone()).or_default().push("registered".to_string());
+                        continue;
+                    }
                     let res = match op.as_str() {
                         "send" => {
                             sender.send(item);
@@ -355,7 +371,7 @@ fn run_case(cfg: &Value, case: &Value, ln: usize) -> (Vec<Mismatch>, Value, Vec<
             let kind = match act {
                 "Send" => "send",
                 "TrySend" => "try_send",
-                "WhenEmpty" => "when_empty",
+                "WhenEmpty" | "WhenEmptyCb" => "when_empty",
                 "WhenFlushed" => "when_flushed",
                 "RecvTake" => "take",
                 _ => "",
@@ -444,6 +460,17 @@ fn run_case(cfg: &Value, case: &Value, ln: usize) -> (Vec<Mismatch>, Value, Vec<
             }
             if got != want {
                 mism.push(Mismatch { class: "prop", step: steps.len(), what: format!("blocking_flush of {f} returned {got}, specification says {want}") });
+            }
+        }
+        if let Some(ecb) = fin["ecb"].as_object() {
+            for (s, want) in ecb {
+                let got = ob.efired.get(s).copied().unwrap_or(0);
+                let want = want.as_str().unwrap() == "fired";
+                if got > 1 {
+                    mism.push(Mismatch { class: "prop", step: steps.len(), what: format!("empty callback of {s} fired {got} times") });
+                } else if (got == 1) != want {
+                    mism.push(Mismatch { class: "prop", step: steps.len(), what: format!("empty callback of {s} fired={} but the specification says fired={want}", got == 1) });
+                }
             }
         }
         for (f, cnt) in &ob.fired {
